@@ -21,6 +21,16 @@ package server
 // Added after the independently seeded change C17-10 (with a TrafficLogger the put-back bytes were
 // replayed through a reader in front of the stream that dropped whatever did not fit into the first
 // 32 KiB Read, so the rest of a longer first flight never reached the target).
+//
+// Further dimension: the LENGTH OF THE REQUEST'S PADDING (PROTOCOL.md: the TCPRequest ends in a
+// varint-counted run of padding bytes the server must skip; 0 = none; the 1/2-byte varint boundary
+// 63/64; MaxPaddingLength 4096 -1/0) x the same arrivals plus one more: the request cut INSIDE its
+// padding, the padding's tail travelling in one piece with the first flight - so that one stream
+// Read returns the end of the padding together with the client's first bytes. Oracle unchanged:
+// replayed + unread == what the client wrote behind its request.
+// Added after the independently seeded change C17-12 (ReadTCPRequest skipped the padding with
+// io.ReadAtLeast into a MaxPaddingLength scratch buffer, so a Read that returned the padding's tail
+// together with what follows swallowed the client's first bytes before the hook saw the stream).
 
 import (
 	"bufio"
@@ -38,9 +48,11 @@ import (
 )
 
 const (
-	c17RpArriveAfter   = 0 // the first flight is written after the request was parsed (server idle in between)
-	c17RpArriveWith    = 1 // request and first flight in one write (fast open)
-	c17RpArriveTwo     = 2 // the first flight in two pieces cut in the middle, server idle in between
+	c17RpArriveAfter   = 0    // the first flight is written after the request was parsed (server idle in between)
+	c17RpArriveWith    = 1    // request and first flight in one write (fast open)
+	c17RpArriveTwo     = 2    // the first flight in two pieces cut in the middle, server idle in between
+	c17RpArrivePadTail = 3    // the request cut inside its padding (server idle there), the padding's tail in one write with the first flight
+	c17RpMaxPadding    = 4096 // protocol.MaxPaddingLength
 	c17RpMaxHTTPHeader = 256 * 1024
 	c17RpCopyBuffer    = 32 * 1024 // core/server/copy.go and utils copy loops: 32 KiB
 )
@@ -53,6 +65,7 @@ type c17RpCase struct {
 	Size    int    `json:"size_of_what_the_hook_reads_and_hands_back"`
 	Tail    int    `json:"client_bytes_right_behind_it"`
 	Arrive  int    `json:"arrival"`
+	Pad     int    `json:"request_padding_bytes"` // added after C17-12; absent in older replay files = 0
 }
 
 // c17RpTee mirrors everything read from the stream (the sniffer's teeReader).
@@ -141,6 +154,22 @@ func c17RpTailBytes(n int) []byte {
 	return b
 }
 
+// c17RpRequest builds the TCPRequest: frame type 0x401 (2-byte varint), address, padding length
+// (varint) and pad padding bytes; padFrom is where the padding bytes begin.
+func c17RpRequest(addr string, pad int) (req []byte, padFrom int) {
+	req = append([]byte{0x44, 0x01, byte(len(addr))}, addr...)
+	if pad <= 63 {
+		req = append(req, byte(pad))
+	} else {
+		req = append(req, 0x40|byte(pad>>8), byte(pad))
+	}
+	padFrom = len(req)
+	for i := 0; i < pad; i++ {
+		req = append(req, "padding."[i%8])
+	}
+	return req, padFrom
+}
+
 func c17RpDiff(sent, got []byte) string {
 	k := 0
 	for k < len(sent) && k < len(got) && sent[k] == got[k] {
@@ -172,8 +201,11 @@ func c17RpRun(c *c17RpCase) (clause string, putback int) {
 			e.Fail("harness: OpenStream: %v", err)
 			return
 		}
-		// TCPRequest: frame type 0x401 (2-byte varint), address, no padding
-		req := append(append([]byte{0x44, 0x01, byte(len(addr))}, addr...), 0x00)
+		if c.Pad < 0 || c.Pad > c17RpMaxPadding || (c.Arrive == c17RpArrivePadTail && c.Pad == 0) {
+			e.Fail("harness: no such case: padding %d, arrival %d", c.Pad, c.Arrive)
+			return
+		}
+		req, padFrom := c17RpRequest(addr, c.Pad)
 		first := append(c17RpFirstFlight(c.Kind, c.Size), c17RpTailBytes(c.Tail)...)
 		var chunks [][]byte
 		switch c.Arrive {
@@ -181,6 +213,10 @@ func c17RpRun(c *c17RpCase) (clause string, putback int) {
 			chunks = [][]byte{append(append([]byte(nil), req...), first...)}
 		case c17RpArriveTwo:
 			chunks = [][]byte{req, first[:len(first)/2], first[len(first)/2:]}
+		case c17RpArrivePadTail:
+			// the later half of the padding (at least its last byte) arrives with the first flight
+			cut := padFrom + c.Pad/2
+			chunks = [][]byte{req[:cut:cut], append(append([]byte(nil), req[cut:]...), first...)}
 		default:
 			chunks = [][]byte{req, first}
 		}
@@ -196,8 +232,8 @@ func c17RpRun(c *c17RpCase) (clause string, putback int) {
 		}
 		sent := append(append([]byte(nil), first...), c17RpLater...)
 		putback = len(hook.putback)
-		where := fmt.Sprintf("TrafficLogger configured: %v, first flight %s of %d bytes + %d bytes right behind it, %s, %d bytes after an idle; the hook handed back %d bytes",
-			c.Traffic, c.Kind, c.Size, c.Tail, c17RpArriveText(c.Arrive), len(c17RpLater), putback)
+		where := fmt.Sprintf("TrafficLogger configured: %v, request with %d padding bytes, first flight %s of %d bytes + %d bytes right behind it, %s, %d bytes after an idle; the hook handed back %d bytes",
+			c.Traffic, c.Pad, c.Kind, c.Size, c.Tail, c17RpArriveText(c.Arrive), len(c17RpLater), putback)
 		var dialled []string
 		for _, ev := range r.Events {
 			if ev.Kind == "tcp" {
@@ -236,6 +272,8 @@ func c17RpArriveText(a int) string {
 		return "arriving together with the request"
 	case c17RpArriveTwo:
 		return "arriving after the request in two pieces with an idle between them"
+	case c17RpArrivePadTail:
+		return "arriving in one piece with the later half of the request's padding (the server idle inside the padding)"
 	}
 	return "arriving after the request was parsed"
 }
@@ -261,6 +299,20 @@ func c17RpEnumerate(sh *evidence.Shard) {
 	}
 	kinds := []string{"http", "tls"}
 	arrivals := []int{c17RpArriveAfter, c17RpArriveWith, c17RpArriveTwo}
+	// request padding (added after C17-12): the 1-/2-byte varint boundary of its length and
+	// MaxPaddingLength -1/0; the small first flights with every padding length, the sizes above the
+	// copy buffer with the shortest and the longest padding only (quick)
+	pads := []int{1, 63, 64, 4095, c17RpMaxPadding}
+	padBig := map[int]bool{1: true, c17RpMaxPadding: true}
+	padSizes := map[string][]int{"http": {sizes["http"][0], 40000}, "tls": {sizes["tls"][0], 40000}}
+	padArrivals := []int{c17RpArriveAfter, c17RpArriveWith, c17RpArriveTwo, c17RpArrivePadTail}
+	if env.Thorough() {
+		pads = []int{1, 2, 63, 64, 65, 511, 4095, c17RpMaxPadding}
+		for _, pad := range pads {
+			padBig[pad] = true
+		}
+		padSizes = map[string][]int{"http": {63, 4096, c17RpCopyBuffer + 1, 40000}, "tls": {5, 4096, c17RpCopyBuffer + 1, 40000}}
+	}
 	p.Alphabet = map[string]any{
 		"traffic_logger_configured (neighbouring option: another relay loop)": []bool{false, true},
 		"first_flight": kinds,
@@ -268,48 +320,87 @@ func c17RpEnumerate(sh *evidence.Shard) {
 		"client_bytes_right_behind_it": tails,
 		"arrival (0 after the request was parsed, 1 with the request, 2 in two pieces with an idle between)": arrivals,
 		"client_bytes_after_an_idle": string(c17RpLater),
-		"hook":                       "reads like the sniffer's HTTP/TLS branches and hands back everything it read; HTTP: host rewritten to the Host header, port kept",
+		"request_padding_bytes (0 with every size; the others with first_flight_sizes_behind_a_padded_request)":                                          append([]int{0}, pads...),
+		"first_flight_sizes_behind_a_padded_request":                                                                                                     padSizes,
+		"paddings_crossed_with_the_sizes_above_the_smallest":                                                                                             padBig,
+		"arrival_behind_a_padded_request (3: the request cut in the middle of its padding, the padding's later half in one write with the first flight)": padArrivals,
+		"hook": "reads like the sniffer's HTTP/TLS branches and hands back everything it read; HTTP: host rewritten to the Host header, port kept",
 	}
 	var item int64
+	// one evaluates one case; false = stop (deadline or enough violations)
+	one := func(c c17RpCase) bool {
+		item++
+		if !env.Mine(item) {
+			return true
+		}
+		if env.Expired() {
+			p.Exhaustive = false
+			p.Note("deadline: stopped at case %d (kind %s, size %d, padding %d)", item, c.Kind, c.Size, c.Pad)
+			return false
+		}
+		p.Evaluations++
+		clause, putback := c17RpRun(&c)
+		short := clause
+		if i := strings.Index(short, ": "); i >= 0 {
+			// "<outcome kind>: <clause>: detail" -> outcome kind and clause
+			if j := strings.Index(short[i+2:], ": "); j >= 0 {
+				short = short[:i+2+j]
+			}
+		}
+		if len(short) > 60 {
+			short = short[:60]
+		}
+		p.Class(c.Kind, c.Size, c.Traffic, c.Tail, c.Arrive, c.Pad, putback, short)
+		if putback > c17RpCopyBuffer {
+			p.Count("cases_where_the_hook_handed_back_more_than_the_copy_buffer", 1)
+		}
+		if c.Pad > 0 && c.Arrive != c17RpArriveAfter && c.Arrive != c17RpArriveTwo {
+			p.Count("cases_where_the_first_flight_was_queued_behind_the_request_padding", 1)
+		}
+		if p.Evaluations%17 == 1 {
+			p.Sample(c)
+		}
+		if clause != "" {
+			cc := c
+			sig := fmt.Sprintf("%s/%s/traffic=%v,%s,size=%d,tail=%d,arrive=%d", p.Name, short, c.Traffic, c.Kind, c.Size, c.Tail, c.Arrive)
+			if c.Pad != 0 {
+				sig += fmt.Sprintf(",pad=%d", c.Pad)
+			}
+			sh.Violate(p.Name, sig, clause, &cc)
+			if sh.NViolations() >= 4 {
+				p.Exhaustive = false
+				return false
+			}
+		}
+		return true
+	}
+	// request without padding: every size
 	for _, kind := range kinds {
 		for _, size := range sizes[kind] {
 			for _, traffic := range []bool{false, true} {
 				for _, tail := range tails {
 					for _, ar := range arrivals {
-						item++
-						if !env.Mine(item) {
-							continue
-						}
-						if env.Expired() {
-							p.Exhaustive = false
-							p.Note("deadline: stopped at case %d (kind %s, size %d)", item, kind, size)
+						if !one(c17RpCase{Traffic: traffic, Kind: kind, Size: size, Tail: tail, Arrive: ar}) {
 							return
 						}
-						c := c17RpCase{Traffic: traffic, Kind: kind, Size: size, Tail: tail, Arrive: ar}
-						p.Evaluations++
-						clause, putback := c17RpRun(&c)
-						short := clause
-						if i := strings.Index(short, ": "); i >= 0 {
-							// "<outcome kind>: <clause>: detail" -> outcome kind and clause
-							if j := strings.Index(short[i+2:], ": "); j >= 0 {
-								short = short[:i+2+j]
-							}
-						}
-						if len(short) > 60 {
-							short = short[:60]
-						}
-						p.Class(kind, size, traffic, tail, ar, putback, short)
-						if putback > c17RpCopyBuffer {
-							p.Count("cases_where_the_hook_handed_back_more_than_the_copy_buffer", 1)
-						}
-						if p.Evaluations%17 == 1 {
-							p.Sample(c)
-						}
-						if clause != "" {
-							cc := c
-							sh.Violate(p.Name, fmt.Sprintf("%s/%s/traffic=%v,%s,size=%d,tail=%d,arrive=%d", p.Name, short, traffic, kind, size, tail, ar), clause, &cc)
-							if sh.NViolations() >= 4 {
-								p.Exhaustive = false
+					}
+				}
+			}
+		}
+	}
+	// request with padding (dimension added after C17-12, see the head of the file): every padding
+	// length x the sizes of padSizes x every arrival, including the one that puts the padding's tail
+	// and the first flight into one Read
+	for _, pad := range pads {
+		for _, kind := range kinds {
+			for _, size := range padSizes[kind] {
+				if size != padSizes[kind][0] && !padBig[pad] {
+					continue
+				}
+				for _, traffic := range []bool{false, true} {
+					for _, tail := range tails {
+						for _, ar := range padArrivals {
+							if !one(c17RpCase{Traffic: traffic, Kind: kind, Size: size, Tail: tail, Arrive: ar, Pad: pad}) {
 								return
 							}
 						}
